@@ -393,6 +393,9 @@ pub fn run(ctx: &Ctx) -> i32 {
         let nl = Fmt::Special(Special::Newline);
         let actions = vec![
             Action::Print,
+            // the variant the public types keep for "the print that was added": a tree built by
+            // hand that holds it has an action like any other
+            Action::DefaultPrint,
             Action::Print0,
             Action::PrintFid,
             Action::Quit,
